@@ -200,8 +200,51 @@ def host_two_displays(style_a, style_b, first_b_created_late):
     return body
 
 
+def host_registry_history(s0, s1):
+    """A history of animate() calls interleaved with ticks on one display: a one-shot animation (style s0), a looping
+    one (style s1, row solver-chosen), ticks until the one-shot has finished, then a third animation (same style as
+    the looping one or another, row and loop flag solver-chosen) and more ticks.  Every looping animation that was
+    started stays registered and active whatever finishes, is pruned or is started around it; tick never raises."""
+    def body(hw):
+        D = hw.load("Reduino.Displays")
+        lcd = D.LCD(i2c_addr=0x27, cols=8, rows=2)
+        styles = ["scroll", "blink", "typewriter", "bounce"]
+
+        def pick(name, hi):
+            v = pysym.sym_int(name, 0, hi)
+            return v.__index__() if pysym.is_sym(v) else v
+        same = bool(pick("third_has_style_of_looping", 1))
+        plan = [(s0, 0, False, 0), (s1, pick("row1", 1), True, 14),
+                ((s1 if same else styles[(styles.index(s1) + 1) % 4]), pick("row2", 1), bool(pick("loop2", 1)), 4)]
+        started = []
+        t = 0
+        for style, row, loop, nticks in plan:
+            before = set(map(id, lcd.animations.values()))
+            lcd.animate(style, row, "ab", speed_ms=0, loop=loop)
+            new = [a for a in lcd.animations.values() if id(a) not in before]
+            claim("animate() registers exactly one new animation", len(new) == 1)
+            if len(new) == 1:
+                started.append((new[0], loop, style, row))
+            for _ in range(nticks):
+                t += 7
+                try:
+                    lcd.tick(t)
+                except Exception as e:     # noqa: BLE001 - the claim is that tick never raises
+                    claim(f"tick never raises ({type(e).__name__}: {e})", False)
+                    return
+                for a, lp, st, rw in started:
+                    if lp:
+                        claim(f"a looping {st} is still registered", any(x is a for x in lcd.animations.values()))
+                        claim(f"a looping {st} is still active", a.active is True)
+            claim("every row keeps the display width", all(len(x) == 8 for x in lcd.buffer))
+    return body
+
+
 def cases(tier):
     items = []
+    for s0 in STYLES:
+        for s1 in STYLES:
+            items.append(("hostreg", f"host/registry_history/{s0}_then_looping_{s1}", s0, s1))
     for sa, sb in (("bounce", "typewriter"), ("scroll", "blink"), ("blink", "scroll"), ("typewriter", "bounce")):
         for late in (False, True):
             items.append(("host2", f"host/two_displays/{sa}+{sb}/second_created_{'late' if late else 'early'}", sa, sb, late))
@@ -222,6 +265,7 @@ def cases(tier):
                     items.append(("host", f"host/{style}/{cols}x{rows}/{tname}/loop={loop}/speed=0",
                                   style, cols, rows, row, text, 0, loop, ticks))
             items.append(("rate", f"rate/{style}/{cols}x{rows}", script(style, cols, rows, row, "abc", 150, True), 150, row, 4))
+            items.append(("rate_wrap", f"rate/{style}/{cols}x{rows}/wrapping_clock", script(style, cols, rows, row, "abc", 150, True), 150, row, 3))
             items.append(("host", f"host/{style}/{cols}x{rows}/rate", style, cols, rows, row, "abc", 150, True, 4))
     # two animations on one display, and a parallel display
     two = (HDR + "lcd = LCD(i2c_addr=0x27, cols=6, rows=2)\n" + 'lcd.animate("blink", 0, "ab", speed_ms=0, loop=True)\n'
@@ -292,12 +336,16 @@ def _work(item):
         _, oid, src, style, cols, rows, row, n, loop, N = item
         return FwSpec(oid, src, run_analyse(style, cols, rows, row, n, loop, N), passes=N, max_block_visits=3000,
                       max_paths=300, describe="animation start + N ticks, clock symbolic").run()
-    if kind == "rate":
+    if kind in ("rate", "rate_wrap"):
         _, oid, src, speed, row, N = item
         return FwSpec(oid, src, rate_analyse(speed, row), passes=N, max_block_visits=3000, max_paths=400,
-                      describe="rate limit over symbolic tick times").run()
+                      clock_wrap=(kind == "rate_wrap"),
+                      describe="rate limit over symbolic tick times" + (" (millisecond counter free to wrap between any two "
+                                                                        "readings)" if kind == "rate_wrap" else "")).run()
     if kind == "twoanims":
         return FwSpec(item[1], item[2], two_analyse, passes=6, max_block_visits=3000, max_paths=300).run()
+    if kind == "hostreg":
+        return run_host_obligation(item[1], host_registry_history(item[2], item[3]), max_paths=400, max_decisions=600, budget_s=200)
     if kind == "host2":
         _, oid, sa, sb, late = item
         return run_host_obligation(oid, host_two_displays(sa, sb, late), max_paths=600, max_decisions=400, budget_s=200)
